@@ -447,7 +447,7 @@ def run_statements(tier, seed):
 def run(tier):
     variants = [{"mode": "c07", "program": "evaluate"}, {"mode": "c07", "program": "assemble+compute"}]
     return keval.run("C07", tier, families=["equivalence"], worker=kprog.run_task, variants=variants,
-                     confirm_fn=confirm_kernel, validate=False, level="translation_validation",
+                     confirm_fn=confirm_kernel, validate=False, level="translation_validation", quick_corpus="core",
                      functions=["tensora.ir.peephole / peephole_expression / peephole_statement (real functions applied to "
                                 "generated modules and to enumerated trees)",
                                 "tensora.generate.generate_module_tensora with and without the optimisation pass"],
